@@ -395,75 +395,75 @@ func (c *Ctx) c14V4Builder() {
 		}
 	}
 	if dleqStore != nil {
-	dv := fieldsOfWith(o.ContentAt(dleqStore.Val, dleqStore))
-	okD := true
-	for _, k := range []string{"E", "S", "R"} {
-		w := fnHexDecode + "#0(" + el + ".DLEQ." + k + ")"
-		if dv[k] == nil || dv[k].String() != w {
-			okD = false
+		dv := fieldsOfWith(o.ContentAt(dleqStore.Val, dleqStore))
+		okD := true
+		for _, k := range []string{"E", "S", "R"} {
+			w := fnHexDecode + "#0(" + el + ".DLEQ." + k + ")"
+			if dv[k] == nil || dv[k].String() != w {
+				okD = false
+			}
 		}
-	}
-	R.Check("R2", fk, "DLEQ fields e, s, r copied", c.P.InstrPos(dleqStore), okD, "the attached DLEQ carries the hex-decoded e, s and r of the proof's DLEQ", short(o.ContentAt(dleqStore.Val, dleqStore).String(), 200))
-	want2 := func(f2 *Fact) bool { return f2.Kind == "bool" && f2.Pos && f2.A.String() == incl }
-	present := func(f2 *Fact) bool { return f2.Kind == "nil" && !f2.Pos && f2.A.String() == el+".DLEQ" }
-	for _, cd := range []*Cond{
-		{Name: "includeDLEQ parameter is true", Match: func(f2 *Fact, _ *Origins) bool { return want2(f2) }},
-		{Name: "proof has a DLEQ", Match: func(f2 *Fact, _ *Origins) bool { return present(f2) }},
-	} {
-		ok, why := o.Requires(dleqStore, cd)
-		R.Check("R2", fk, "DLEQ store <= "+cd.Name, c.P.InstrPos(dleqStore), ok, "the DLEQ is attached only when ["+cd.Name+"]", why)
-	}
-	// completeness: requested and present => attached. Within one iteration the element reaches the result without
-	// passing the DLEQ store only over an edge that says "the includeDLEQ PARAMETER is false" or "this proof has no
-	// DLEQ" (a flag recomputed from something else - the first proof, a length - is not an excuse).
-	{
-		excuse := &Cond{Name: "DLEQ not requested (parameter) or absent (this proof)", Match: func(f2 *Fact, _ *Origins) bool {
-			return (f2.Kind == "bool" && !f2.Pos && f2.A.String() == incl) || (f2.Kind == "nil" && f2.Pos && f2.A.String() == el+".DLEQ")
-		}}
-		cut := NewCut()
-		for e := range o.AcceptEdges(excuse) {
-			cut.Edges[e] = true
+		R.Check("R2", fk, "DLEQ fields e, s, r copied", c.P.InstrPos(dleqStore), okD, "the attached DLEQ carries the hex-decoded e, s and r of the proof's DLEQ", short(o.ContentAt(dleqStore.Val, dleqStore).String(), 200))
+		want2 := func(f2 *Fact) bool { return f2.Kind == "bool" && f2.Pos && f2.A.String() == incl }
+		present := func(f2 *Fact) bool { return f2.Kind == "nil" && !f2.Pos && f2.A.String() == el+".DLEQ" }
+		for _, cd := range []*Cond{
+			{Name: "includeDLEQ parameter is true", Match: func(f2 *Fact, _ *Origins) bool { return want2(f2) }},
+			{Name: "proof has a DLEQ", Match: func(f2 *Fact, _ *Origins) bool { return present(f2) }},
+		} {
+			ok, why := o.Requires(dleqStore, cd)
+			R.Check("R2", fk, "DLEQ store <= "+cd.Name, c.P.InstrPos(dleqStore), ok, "the DLEQ is attached only when ["+cd.Name+"]", why)
 		}
-		cut.Barriers[dleqStore] = true
-		l := o.Loops.InnermostContaining(dleqStore.Block())
-		okC, whyC := l != nil, "the DLEQ store is not inside the loop over the proofs"
-		if l != nil {
-			for _, lb := range l.Latches {
-				for i, sc := range lb.Succs {
-					if sc == l.Header {
-						cut.Edges[Edge{lb, i}] = true
+		// completeness: requested and present => attached. Within one iteration the element reaches the result without
+		// passing the DLEQ store only over an edge that says "the includeDLEQ PARAMETER is false" or "this proof has no
+		// DLEQ" (a flag recomputed from something else - the first proof, a length - is not an excuse).
+		{
+			excuse := &Cond{Name: "DLEQ not requested (parameter) or absent (this proof)", Match: func(f2 *Fact, _ *Origins) bool {
+				return (f2.Kind == "bool" && !f2.Pos && f2.A.String() == incl) || (f2.Kind == "nil" && f2.Pos && f2.A.String() == el+".DLEQ")
+			}}
+			cut := NewCut()
+			for e := range o.AcceptEdges(excuse) {
+				cut.Edges[e] = true
+			}
+			cut.Barriers[dleqStore] = true
+			l := o.Loops.InnermostContaining(dleqStore.Block())
+			okC, whyC := l != nil, "the DLEQ store is not inside the loop over the proofs"
+			if l != nil {
+				for _, lb := range l.Latches {
+					for i, sc := range lb.Succs {
+						if sc == l.Header {
+							cut.Edges[Edge{lb, i}] = true
+						}
 					}
 				}
-			}
-			nS := 0
-			for b := range l.Blocks {
-				for _, in := range b.Instrs {
-					isSink := false
-					switch x := in.(type) {
-					case *ssa.Call:
-						if bi, ok := x.Call.Value.(*ssa.Builtin); ok && bi.Name() == "append" {
+				nS := 0
+				for b := range l.Blocks {
+					for _, in := range b.Instrs {
+						isSink := false
+						switch x := in.(type) {
+						case *ssa.Call:
+							if bi, ok := x.Call.Value.(*ssa.Builtin); ok && bi.Name() == "append" {
+								isSink = true
+							}
+						case *ssa.MapUpdate:
 							isSink = true
 						}
-					case *ssa.MapUpdate:
-						isSink = true
-					}
-					if !isSink || o.Loops.InnermostContaining(b) != l {
-						continue
-					}
-					nS++
-					if reach, path := Reach(Point{l.Header, 0}, PointOf(in), cut); reach {
-						okC = false
-						whyC = "element stored at " + c.P.InstrPos(in) + " without the DLEQ on a path that neither tests the includeDLEQ parameter false nor finds the proof's DLEQ absent: " + c.P.PathString(path)
+						if !isSink || o.Loops.InnermostContaining(b) != l {
+							continue
+						}
+						nS++
+						if reach, path := Reach(Point{l.Header, 0}, PointOf(in), cut); reach {
+							okC = false
+							whyC = "element stored at " + c.P.InstrPos(in) + " without the DLEQ on a path that neither tests the includeDLEQ parameter false nor finds the proof's DLEQ absent: " + c.P.PathString(path)
+						}
 					}
 				}
+				if nS == 0 {
+					okC, whyC = false, "no store of the element into the result found in the loop"
+				}
 			}
-			if nS == 0 {
-				okC, whyC = false, "no store of the element into the result found in the loop"
-			}
+			R.Check("R2", fk, "DLEQ attached whenever present (and requested)", c.P.InstrPos(dleqStore), okC,
+				"on every path where the includeDLEQ parameter is true and the proof has a DLEQ, the DLEQ is attached before the element is stored", whyC)
 		}
-		R.Check("R2", fk, "DLEQ attached whenever present (and requested)", c.P.InstrPos(dleqStore), okC,
-			"on every path where the includeDLEQ parameter is true and the proof has a DLEQ, the DLEQ is attached before the element is stored", whyC)
-	}
 	}
 	// mint url and unit
 	for _, r := range o.SuccessReturns() {
